@@ -12,9 +12,10 @@
    shapes (end present or not, body present or not, end matching the empty
    string or not). *)
 From Coq Require Import ZArith List Bool Arith.
-From SK Require Import Model.Skel Model.Sequence Spec.Sequence
+From SK Require Import Model.Skel Model.Stm Model.Sequence Model.SequenceSk
+     Spec.Sequence
      Proofs.Sequence Proofs.SequenceMulti Proofs.SequenceIds Proofs.SequenceSkel
-     Gen.Skeleton.
+     Gen.Skeleton Gen.SkelTree.
 Import ListNotations.
 Open Scope Z_scope.
 
@@ -119,6 +120,47 @@ Proof. exact legacy_refuted. Qed.
 Theorem C03_run_search_shape : run_search_shape sk_run_search = true.
 Proof. vm_compute. reflexivity. Qed.
 
+(* --- T1: _sequence_search / _process_sequence_results, branch for branch - *)
+(* (a) calls and if/loop structure of the extracted trees (reads, writes
+   and anything the translator does not map are erased) are the ones the
+   model's branches are written against (Model/SequenceSk.v) *)
+Theorem C03_sequence_search_shape :
+  calls_only_list tk_sequence_search = expected_sequence_search.
+Proof. vm_compute. reflexivity. Qed.
+
+Theorem C03_process_sequence_results_shape :
+  calls_only_list tk_process_sequence_results
+  = expected_process_sequence_results.
+Proof. vm_compute. reflexivity. Qed.
+
+(* (b) interpreting the extracted tree of _sequence_search - each call event
+   as the model operation of that name, each `if` decided by the model
+   condition listed for it in source order, each test having read the
+   attributes it is about - IS the model's step, for every definition
+   shape, every state and every line *)
+Theorem C03_sequence_search_is_ctl_step : forall sh k c,
+  run_seq_tree tk_sequence_search sh k c = Some (ctl_step sh k c).
+Proof.
+  intros [he hb ee] [stt cu nx] [cs ce cb].
+  destruct he, stt, cs, ce, hb, cb; vm_compute; reflexivity.
+Qed.
+
+(* the per-definition part of the end-of-file pass: skipped unless started
+   and with an end; the end pattern is run on ''; a match adds an end result
+   to the current section, no match puts the current section in the filter *)
+Theorem C03_process_sequence_results_is_eof_action : forall sh k,
+  run_eof_tree tk_process_sequence_results sh k = Some (eof_action sh k).
+Proof.
+  intros [he hb ee] [stt cu nx].
+  destruct he, stt, ee; vm_compute; reflexivity.
+Qed.
+
+(* ... and [seq_eof] is the application of that action (the end result is
+   numbered one past the last line) *)
+Theorem C03_seq_eof_applies_eof_action : forall sh k acc ln,
+  seq_eof sh (k, acc) ln = apply_eof (eof_action sh k) acc ln.
+Proof. exact seq_eof_is_action. Qed.
+
 (* --- non-vacuity ------------------------------------------------------- *)
 (* class codes: 1 = S, 2 = E, 4 = B, 3 = S+E, 7 = S+E+B, 0 = none *)
 Definition ex_word : list cline :=
@@ -189,3 +231,8 @@ Print Assumptions C03_multi_exact.
 Print Assumptions C03_ids_distinct_across_definitions.
 Print Assumptions C03_legacy_sequence_refuted.
 Print Assumptions C03_run_search_shape.
+Print Assumptions C03_sequence_search_shape.
+Print Assumptions C03_process_sequence_results_shape.
+Print Assumptions C03_sequence_search_is_ctl_step.
+Print Assumptions C03_process_sequence_results_is_eof_action.
+Print Assumptions C03_seq_eof_applies_eof_action.
